@@ -122,6 +122,23 @@ fn gen_plan(ch: &mut Ch) -> Plan {
         nt.pre_gap_ns = 5 * MS;
         clients.push(ClientSpec { ep: 900, lanes: vec![LaneSpec { transfers: vec![nt], timeout_ms: 1000 }], mid0: 0, tok_seed: 1, net: lat.clone(), via_proxy: false });
     }
+    // the observed endpoint itself uses the same path with other methods in
+    // between (other keys: the method is part of the key)
+    if ch.chance(1, 3, "e.same-endpoint-other-method") {
+        let n = 1 + ch.below(3, "e.som.n") as usize;
+        let methods: &[u8] = if upload { &[1, 2, 5, 4] } else { &[3, 2, 4, 6] };
+        let dgs: Vec<Vec<u8>> = (0..n)
+            .map(|i| {
+                let m = methods[ch.below(methods.len() as u64, "e.som.method") as usize];
+                let pl: Vec<u8> = if m == 1 || m == 4 || m == 5 { vec![] } else { vec![0x33; 5] };
+                build_request(m, MessageType::NonConfirmable, 40000 + i as u16, &[0xEE, i as u8], &path, &[], None, None, &pl)
+            })
+            .collect();
+        let mut st = default_transfer(1, vec![], TKind::Raw { datagrams: dgs, gap_ns: (total_gap / (n as u64 + 1)).max(MS) });
+        st.tag_kind = TagKind::Noise;
+        st.pre_gap_ns = 12 * MS + ch.below(total_gap / 2 + 1, "e.som.t");
+        clients.push(ClientSpec { ep: 100, lanes: vec![LaneSpec { transfers: vec![st], timeout_ms: 1000 }], mid0: 0, tok_seed: 77, net: lat.clone(), via_proxy: false });
+    }
     // abandoned transfers by other endpoints (reclamation clause)
     let nab = if ch.chance(1, 2, "e.abandoned") { 1 + ch.below(50, "e.nab") as usize } else { 0 };
     for i in 0..nab {
@@ -239,7 +256,10 @@ pub fn run(ch: &mut Ch, verbose: bool) -> Outcome {
     }
 
     // ---- the observed transfer -----------------------------------------
-    let obs: Vec<&Arrival> = log.iter().filter(|a| a.from == 100 && a.is_request).collect();
+    let obs: Vec<&Arrival> = log.iter().filter(|a| a.tag.client == 0 && a.tag.kind == TagKind::Coop && a.is_request).collect();
+    if log.iter().any(|a| a.from == 100 && a.tag.kind == TagKind::Noise) {
+        stats.hit("probe.c20.same-endpoint-other-method-in-between");
+    }
     let mut abstract_h = Fnv::default();
     abstract_h.byte(plan.upload as u8);
     let mut nontrivial = false;
